@@ -286,6 +286,16 @@ pub fn gen_c16(tier: &str, rng: &mut Rng, emit: &mut Emit) {
             }
         }
     }
+    for _ in 0..4 {
+        let base = rand_eisa(rng);
+        for pos in 0..7usize {
+            for ch in 1u8..=0x7f {
+                let mut s = base.clone();
+                s[pos] = ch;
+                emit.case(5, text_case(&s));
+            }
+        }
+    }
     emit.case(5, text_case(b""));
     // ---- UUID: every nibble position x 16 digits x both cases
     let base = rand_uuid(rng);
@@ -324,6 +334,21 @@ pub fn gen_c16(tier: &str, rng: &mut Rng, emit: &mut Emit) {
             if base[pos] == b'-' {
                 let mut s = base.clone();
                 s[pos] = b'0';
+                emit.case(6, text_case(&s));
+            }
+        }
+    }
+    // every ASCII byte at every position of two well-formed strings (sign characters, whitespace, control characters,
+    // lookalike punctuation: whatever a library parser might tolerate)
+    for _ in 0..2 {
+        let base = rand_uuid(rng);
+        for pos in 0..36usize {
+            for ch in 1u8..=0x7f {
+                if base[pos] == ch {
+                    continue;
+                }
+                let mut s = base.clone();
+                s[pos] = ch;
                 emit.case(6, text_case(&s));
             }
         }
